@@ -63,6 +63,14 @@ struct Scalar<long> {
   static R exact(long v) { return R(v); }
   static constexpr const char *name = "long";
 };
+// GMP's own rational class used DIRECTLY as the scalar type: a conforming exact type whose arithmetic operators return
+// unevaluated expression templates (so `auto x = a + b * c;` in library code holds references, not a value)
+template <>
+struct Scalar<mpq_class> {
+  static mpq_class make(i64 n, i64 d) { mpq_class r(n, d < 1 ? 1 : d); r.canonicalize(); return r; }
+  static R exact(const mpq_class &v) { return v; }
+  static constexpr const char *name = "mpq_class(expression templates)";
+};
 template <class T>
 R exact(const T &v) {
   return Scalar<T>::exact(v);
